@@ -18,34 +18,15 @@ PROPS = {}
 HOOK_COMMITS = []   # guarded hook commits in /repo (none needed so far)
 NOT_YET = {}        # property id -> reason shown in MANIFEST.not_applicable while its machinery is not built
 
-PROPS["C13"] = {
-    "id": "C13",
-    "level": "proof",
-    "technique": "Lean 4 proof (induction over update lists, injectivity of triangular numbers mod 2^k) + function-level correspondence on the real bucket classes",
-    "level_text": ("Kernel-checked theorems for every probe value < 2^64, every update order, every table size 2^L: the decoded bound of both "
-                   "max-probe encoders covers every recorded displacement, both probe sequences are permutations of the buckets, the insertion "
-                   "loop reports 'full' only when all buckets are full. The models are executable and compared with the real bucket classes "
-                   "(exhaustively for small probes/tables) on every run; encoder constants are re-extracted from the headers."),
-    "level_note": ("Trusted: Lean kernel, the three standard axioms, extractor, correspondence harness (g++, -fno-access-control). Modelled not "
-                   "verified: the C++ byte layout of mState/mData; 64-bit wrap-around is excluded by the hypothesis p < 2^64 and shown not to occur."),
-    "modules": ["Momo.Props.C13"],
-    "theorems": [
-        "Momo.Probe.C13_bound_open2n2",
-        "Momo.Probe.C13_state_fits_open2n2",
-        "Momo.Probe.C13_bound_openN1",
-        "Momo.Probe.C13_seq_visits_all",
-        "Momo.Probe.C13_insert_fails_only_when_full",
-        "Momo.Probe.C13_lookup_examines",
-    ],
-    "harnesses": [
-        {"name": "c13_probe", "src": "c13_probe.cpp"},
-    ],
-    "rule": ("enc: every probe 0..2^16 (thorough 2^20) from a fresh state on all 6 Open2N2 and 8 OpenN1/Open8 bucket instantiations, plus random "
-             "boundary-biased update sequences up to 2^62 (all 6 orders of 3-element sets); seq: real GetNextBucketIndex enumerated for all homes of "
-             "tables 2^0..2^5 and summarised (checksum + distinct count) for 2^6..2^20 (thorough 2^24); fill: real HashSets that cannot grow are filled "
-             "until 'Hash table is full', every landing bucket compared with the model's addProbe. distinct_nontrivial counts distinct update "
-             "sequences / (kind,L,home) enumerations / fill rounds."),
-    "runtime_only": [],
-    "not_modelled": ["SSE2 in-bucket search of BucketOpen8 (exercised by the fill suite, not modelled)",
-                     "placement invariant of the whole table (I2) is part of C01's model"],
-}
+
+def _load():
+    import importlib.util, glob, os
+    here = os.path.join(os.path.dirname(os.path.abspath(__file__)), "props")
+    for path in sorted(glob.glob(os.path.join(here, "C*.py"))):
+        spec = importlib.util.spec_from_file_location("verif_prop_" + os.path.basename(path)[:-3], path)
+        mod = importlib.util.module_from_spec(spec)
+        spec.loader.exec_module(mod)
+        PROPS[mod.PROP["id"]] = mod.PROP
+
+
+_load()
